@@ -15,9 +15,9 @@ from .C01 import ref_indices
 ID = "C10"
 LEVEL = "model_checking"
 RULE = (
-    "full TR(d) = 2^d flips x d! axis permutations x padding patterns (per axis (0,0),(1,0),(0,3),(3,3); 3-D: (0,0),(3,3)) x layouts {C, F, negative strides, strided view}: "
-    "1-D 32 transforms on all pairs of G1(3,2); 2-D 512 transforms on 32 base pairs of G2(2,3,2) (thorough 128 + all of G2(2,2,2)^2 x UNMATCHED); 3-D 1536 transforms on 4 (thorough 16) base pairs of G3(2,2,2,2); x input type {SEMANTIC, UNMATCHED, MATCHED}. "
-    "generators (each single flip, transposition, padding pattern, layout alone) on G1(4,2) x 27 refs and G2(2,2,2) x 9 refs (thorough: all refs, + G2(2,3,2) x 27, G3(2,2,2,1) x 27) x {UNMATCHED, SEMANTIC}. "
+    "full TR(d) = 2^d flips x d! axis permutations x padding patterns (per axis (0,0),(1,0),(0,3),(3,3); 3-D: (0,0),(3,3)) x layout pairs (prediction, reference) in {(C,C),(F,F),(neg,neg),(strided,strided),(F,C),(C,F),(neg,C),(strided,F)}: "
+    "1-D 64 transforms on all pairs of G1(3,2); 2-D 1024 transforms on 32 base pairs of G2(2,3,2) (thorough 128 + all of G2(2,2,2)^2 x UNMATCHED); 3-D 3072 transforms on 4 (thorough 16) base pairs of G3(2,2,2,2); x input type {SEMANTIC, UNMATCHED, MATCHED}. "
+    "generators (each single flip, transposition, padding pattern alone, all 16 (prediction, reference) layout pairs alone, mixed layouts combined with every axis permutation) on G1(4,2) x 27 refs and G2(2,2,2) x 9 refs (thorough: all refs, + G2(2,3,2) x 27, G3(2,2,2,1) x 27) x {UNMATCHED, SEMANTIC}. "
     "non-trivial = both sides non-empty with a candidate pair and a non-identity transform; distinct by (base, transform, input type)"
 )
 ASSUMPTIONS = ["guard: equality only when no two competing candidate pairs tie; otherwise the transformed result must be an admissible result of the reference model"]
@@ -116,7 +116,7 @@ def run_case(case, acc):
     nd = len(shape)
     if "transform" in case:
         t = case["transform"]
-        trs = [(tuple(t[0]), tuple(t[1]), tuple(tuple(x) for x in t[2]), t[3])]
+        trs = [(tuple(t[0]), tuple(t[1]), tuple(tuple(x) for x in t[2]), t[3] if isinstance(t[3], str) else tuple(t[3]))]
     elif case["kind"] == "full":
         trs = list(sc.transforms_full(nd))
         if "part" in case:
@@ -135,14 +135,14 @@ def run_case(case, acc):
     if acc.evaluations % 499 == 1:
         acc.sample({"pred": bp.tolist(), "ref": br.tolist(), "input_type": itype, "n_transforms": len(trs), "example_transform(flip,perm,pad,layout)": [list(map(list, trs[-1][:3])), trs[-1][3]] if False else repr(trs[-1])})
     for fl, pm, pd, ly in trs:
-        P, R = sc.apply_transform(bp, fl, pm, pd, ly), sc.apply_transform(br, fl, pm, pd, ly)
+        P, R = sc.apply_transform(bp, fl, pm, pd, ly, 0), sc.apply_transform(br, fl, pm, pd, ly, 1)
         acc.step()
         st1, o1, _ = meta.run(itype, matcher, backend, P, R)
-        tr = [list(fl), list(pm), [list(x) for x in pd], ly]
+        tr = [list(fl), list(pm), [list(x) for x in pd], ly if isinstance(ly, str) else list(ly)]
         c2 = {**case, "transform": tr}
         tag = f"{itype} flip={fl} perm={pm} pad={pd} layout={ly} base pred={bp.tolist()} ref={br.tolist()}"
         if st1 == "EXC":
-            acc.violation(f"C10:raised:{type(o1).__name__}:{ly}", c2, f"{tag}: evaluate raised {o1!r} on the transformed pair")
+            acc.violation(f"C10:raised:{type(o1).__name__}:{ly if isinstance(ly, str) else '-'.join(ly)}", c2, f"{tag}: evaluate raised {o1!r} on the transformed pair")
             continue
         acc.state(itype, P, R, ly)
         if nontriv:
@@ -159,5 +159,5 @@ def run_case(case, acc):
                 acc.count("tie_reordered_but_admissible")
                 continue
         which = "counts" if any(k in d for k in ("tp", "fp", "fn", "num_ref_instances", "num_pred_instances")) else "values"
-        kind = "layout" if ly != "C" and not any(fl) and tuple(pm) == tuple(range(nd)) and all(tuple(x) == (0, 0) for x in pd) else "geometry"
+        kind = "layout" if ly not in ("C", ("C", "C")) and not any(fl) and tuple(pm) == tuple(range(nd)) and all(tuple(x) == (0, 0) for x in pd) else "geometry"
         acc.violation(f"C10:{which}:{kind}:{itype}", c2, f"{tag}: differs from the base evaluation in {d}; base tp/fp/fn={o0['tp']}/{o0['fp']}/{o0['fn']} IoU={o0['list_IOU']} ASSD={o0['list_ASSD']}; transformed tp/fp/fn={o1['tp']}/{o1['fp']}/{o1['fn']} IoU={o1['list_IOU']} ASSD={o1['list_ASSD']}")
